@@ -147,11 +147,12 @@ const (
 	CbRegNew
 	CbEmit
 	CbFilterReg
+	CbStats
 	NumCbActions
 )
 
 // CbNames names callback actions.
-var CbNames = []string{"nothing", "read", "query", "set", "writeptr", "gc", "structural", "unreg_self", "unreg_other", "reg_new", "emit", "filter_reg"}
+var CbNames = []string{"nothing", "read", "query", "set", "writeptr", "gc", "structural", "unreg_self", "unreg_other", "reg_new", "emit", "filter_reg", "stats"}
 
 // Config is the per-run configuration (drawn from the seed, stored in replays).
 type Config struct {
